@@ -141,6 +141,20 @@ class Scenario:
         (f2 * v).sum().backward()
         out.pair("a retained gradient behind an untracked result is left alone", snapshot(gradof(h)), kept_h)
         out.pair("a leaf gradient behind an untracked result is left alone", snapshot(gradof(u)), kept_u)
+        # the untracked result is then made a leaf that requires grad (differentiating a loss with respect to frozen features):
+        # the graph of the loss ends at it all the same
+        w2 = Tn(env.arr("w2", (2,)), requires_grad=True)         # never differentiated
+        with synapgrad.no_grad():
+            f3 = h * w2
+        f3.requires_grad = True
+        kept_h, kept_u = snapshot(gradof(h)), snapshot(gradof(u))
+        g3 = env.arr("g3", (2,))
+        (f3 * v).backward(Tn(g3))
+        out.fact("a tensor behind a flagged untracked result gets no gradient buffer", gradof(w2) is None,
+                 "its .grad is %s" % ("None" if gradof(w2) is None else "an array"))
+        out.pair("a retained gradient behind a flagged untracked result is left alone", snapshot(gradof(h)), kept_h)
+        out.pair("a leaf gradient behind a flagged untracked result is left alone", snapshot(gradof(u)), kept_u)
+        out.pair("the flagged result itself receives the gradient", snapshot(gradof(f3)), g3 * v.data)
         return out
 
     def s_wrapped_tensor_own_gradient(self, env):
